@@ -123,3 +123,179 @@ Proof.
   destruct A as (? & ? & ? & ? & ? & ? & ? & ? & expires & t & ? & ? & A). exists t, expires. tauto.
 Qed.
 End Presigned.
+
+(* ---------- exactly: acceptance by header authentication, characterised ---------- *)
+Section Exact.
+Variable H : bytes -> bytes.
+Variable auth : option (bytes -> option bytes).
+
+(* the payload component of the canonical request, as a function of the request: streaming marker, UNSIGNED-PAYLOAD, the
+   empty hash for GET/HEAD, else the hash of the whole buffered body (which must have the declared length) *)
+Definition payload_rule (r : sigreq) (csha : option content_sha) : bytes + payload :=
+  let is_stream := match csha with Some CMultiple => true | _ => false end in
+  let is_unsigned := match csha with Some CUnsigned => true | _ => false end in
+  let get_or_head := beq (q_meth r) (b "GET") || beq (q_meth r) (b "HEAD") in
+  if is_stream then inr PMultiple
+  else if get_or_head then inr (if is_unsigned then PUnsigned else PEmpty)
+  else if is_unsigned then inr PUnsigned
+  else match q_body r with
+       | (Some body, true) => inr (match body with [] => PEmpty | _ => PSingle body end)
+       | (Some _, false) => inl (b "IncompleteBody")
+       | (None, _) => inl (b "InternalError")
+       end.
+
+Definition content_sha_of (r : sigreq) : option (option content_sha) :=
+  match hs_get_unique (q_hs r) (b "x-amz-content-sha256") with
+  | None => Some None
+  | Some v => match parse_content_sha v with Some c => Some (Some c) | None => None end
+  end.
+
+(* every condition of an acceptance, with the payload and the streaming seed determined by the request *)
+Definition header_accept_exact (r : sigreq) (dl : option N) (ak region service : bytes) (seed : option bytes) : Prop :=
+  exists av a f secret dv iso date csha p,
+    hs_get_unique (q_hs r) (b "authorization") = Some av /\
+    parse_authorization av = Some a /\
+    a_alg a = b "AWS4-HMAC-SHA256" /\
+    c_ak (a_cred a) = ak /\ c_region (a_cred a) = region /\ c_service (a_cred a) = service /\
+    (service = b "s3" \/ service = b "sts") /\
+    auth = Some f /\ f ak = Some secret /\
+    content_sha_of r = Some csha /\ (service = b "s3" -> csha <> None) /\
+    hs_get_unique (q_hs r) (b "x-amz-date") = Some dv /\ parse_amz_date dv = Some (iso, date) /\
+    c_date (a_cred a) = date /\
+    payload_rule r csha = inr p /\
+    let sg := signature H (canonical_request H (q_meth r) (q_path r) (match q_qs r with Some l => l | None => [] end)
+                             (find_multiple (q_hs r) (sort_names (a_signed a)) (on_missing r)) p)
+                        secret iso date region service in
+    a_sig a = sg /\
+    match csha with
+    | Some CMultiple => dl <> None /\ seed = Some sg
+    | _ => seed = None
+    end.
+
+Lemma beq_false_ne x y : beq x y = false -> x <> y.
+Proof. intros E ->. rewrite beq_refl in E. discriminate. Qed.
+
+Theorem header_accept_iff r dl ak region service seed :
+  v4_header_auth H auth r dl = Accept ak region service seed <-> header_accept_exact r dl ak region service seed.
+Proof.
+  unfold v4_header_auth, lookup_secret. fold (content_sha_of r).
+  split.
+  - intros A.
+    destruct (hs_get_unique (q_hs r) (b "authorization")) as [av|] eqn:Eav; [|discriminate].
+    destruct (parse_authorization av) as [a|] eqn:Ea; [|discriminate].
+    destruct (beq (a_alg a) (b "AWS4-HMAC-SHA256")) eqn:Ealg; cbn [negb] in A; [|discriminate].
+    apply beq_eq in Ealg.
+    destruct (beq (c_service (a_cred a)) (b "s3") || beq (c_service (a_cred a)) (b "sts")) eqn:Esvc; cbn [negb] in A; [|discriminate].
+    destruct auth as [f|] eqn:Eauth; [|discriminate].
+    destruct (content_sha_of r) as [csha|] eqn:Ecs; [|discriminate].
+    destruct (beq (c_service (a_cred a)) (b "s3") && match csha with None => true | _ => false end) eqn:Es3; [discriminate|].
+    destruct (f (c_ak (a_cred a))) as [secret|] eqn:Esec; [|discriminate].
+    destruct (hs_get_unique (q_hs r) (b "x-amz-date")) as [dv|] eqn:Edv; [|discriminate].
+    destruct (parse_amz_date dv) as [[iso date]|] eqn:Edate; [|discriminate].
+    destruct (beq (c_date (a_cred a)) date) eqn:Ecd; cbn [negb] in A; [|discriminate].
+    apply beq_eq in Ecd.
+    change (match (if match csha with Some CMultiple => true | _ => false end then inr PMultiple else _) with inl code => _ | inr p => _ end = _)
+      with (match payload_rule r csha with inl code => Reject code | inr p =>
+              let sg := signature H (canonical_request H (q_meth r) (q_path r) (match q_qs r with Some l => l | None => [] end)
+                                       (find_multiple (q_hs r) (sort_names (a_signed a)) (on_missing r)) p) secret iso date (c_region (a_cred a)) (c_service (a_cred a)) in
+              if negb (beq sg (a_sig a)) then Reject (b "SignatureDoesNotMatch")
+              else if match csha with Some CMultiple => true | _ => false end
+                   then match dl with None => Reject (b "MissingContentLength") | Some _ => Accept (c_ak (a_cred a)) (c_region (a_cred a)) (c_service (a_cred a)) (Some sg) end
+                   else Accept (c_ak (a_cred a)) (c_region (a_cred a)) (c_service (a_cred a)) None
+            end = Accept ak region service seed) in A.
+    destruct (payload_rule r csha) as [code|p] eqn:Epl; [discriminate|]. cbn zeta in A.
+    match type of A with (if negb (beq ?sg _) then _ else _) = _ => destruct (beq sg (a_sig a)) eqn:Esg; cbn [negb] in A; [|discriminate] end.
+    apply beq_eq in Esg.
+    exists av, a, f, secret, dv, iso, date, csha, p.
+    assert (Hsvc : c_service (a_cred a) = b "s3" \/ c_service (a_cred a) = b "sts").
+    { apply orb_prop in Esvc as [E|E]; apply beq_eq in E; auto. }
+    assert (Hcs : c_service (a_cred a) = b "s3" -> csha <> None).
+    { intros E. rewrite E, beq_refl in Es3. cbn [andb] in Es3. destruct csha; [discriminate|discriminate]. }
+    destruct csha as [[| |]|]; (try destruct dl as [n|]); try discriminate; injection A as <- <- <- <-;
+      repeat split; auto; try discriminate.
+  - intros (av & a & f & secret & dv & iso & date & csha & p & Eav & Ea & Ealg & Eak & Ereg & Esv & Hsvc & Eauth & Esec & Ecs & Hcs
+            & Edv & Edate & Ecd & Epl & Hsig).
+    cbn zeta in Hsig. destruct Hsig as [Esg Hseed].
+    rewrite Eav, Ea, Ealg, beq_refl. cbn [negb].
+    assert (Esvc : beq (c_service (a_cred a)) (b "s3") || beq (c_service (a_cred a)) (b "sts") = true).
+    { rewrite Esv. destruct Hsvc as [->| ->]; [rewrite beq_refl; reflexivity|rewrite beq_refl; apply orb_true_r]. }
+    rewrite Esvc. cbn [negb]. rewrite Eauth, Ecs.
+    assert (Es3 : beq (c_service (a_cred a)) (b "s3") && match csha with None => true | _ => false end = false).
+    { destruct csha; [apply andb_false_r|]. rewrite Esv. destruct (beq service (b "s3")) eqn:E; [|reflexivity].
+      apply beq_eq in E. exfalso. exact (Hcs E eq_refl). }
+    rewrite Es3. rewrite Eak, Esec, Edv, Edate, Ecd, beq_refl. cbn [negb].
+    change (match (if match csha with Some CMultiple => true | _ => false end then inr PMultiple else _) with inl code => _ | inr p0 => _ end = _)
+      with (match payload_rule r csha with inl code => Reject code | inr p0 =>
+              let sg := signature H (canonical_request H (q_meth r) (q_path r) (match q_qs r with Some l => l | None => [] end)
+                                       (find_multiple (q_hs r) (sort_names (a_signed a)) (on_missing r)) p0) secret iso date (c_region (a_cred a)) (c_service (a_cred a)) in
+              if negb (beq sg (a_sig a)) then Reject (b "SignatureDoesNotMatch")
+              else if match csha with Some CMultiple => true | _ => false end
+                   then match dl with None => Reject (b "MissingContentLength") | Some _ => Accept ak (c_region (a_cred a)) (c_service (a_cred a)) (Some sg) end
+                   else Accept ak (c_region (a_cred a)) (c_service (a_cred a)) None
+            end = Accept ak region service seed).
+    rewrite Epl. cbn zeta. rewrite Ereg, Esv, Esg, beq_refl. cbn [negb].
+    destruct csha as [[| |]|]; try (rewrite Hseed; reflexivity).
+    destruct Hseed as [Hdl ->]. destruct dl; [reflexivity|congruence].
+Qed.
+End Exact.
+
+(* ---------- exactly: acceptance of a presigned URL, characterised ---------- *)
+Section PresignedExact.
+Variable H : bytes -> bytes.
+Variable auth : option (bytes -> option bytes).
+Variable epoch_of : bytes -> option Z.
+
+Definition presigned_accept_exact (r : sigreq) (now_ns : Z) (ak region service : bytes) (seed : option bytes) : Prop :=
+  presigned_accept_spec H auth epoch_of r now_ns ak region service /\ seed = None
+  /\ (let qs := match q_qs r with Some l => l | None => [] end in
+      forall shv sgv, qs_get_unique qs (b "X-Amz-SignedHeaders") = Some shv -> qs_get_unique qs (b "X-Amz-Signature") = Some sgv ->
+                      forallb (fun c => c <? 128) shv = true /\ is_sha256_checksum sgv = true)
+  /\ match hs_get_unique (q_hs r) (b "x-amz-content-sha256") with
+     | None => True | Some v => parse_content_sha v <> None end.
+
+Theorem presigned_accept_iff r now_ns ak region service seed :
+  v4_presigned H auth epoch_of r now_ns = Accept ak region service seed <-> presigned_accept_exact r now_ns ak region service seed.
+Proof.
+  split.
+  - intros A. split; [exact (presigned_accept_sound H auth epoch_of r now_ns ak region service seed A)|].
+    revert A. unfold v4_presigned, lookup_secret. cbv zeta.
+    set (qs := match q_qs r with Some l => l | None => [] end). intros A.
+    destruct (qs_get_unique qs (b "X-Amz-Algorithm")) as [alg|]; [|discriminate].
+    destruct (qs_get_unique qs (b "X-Amz-Credential")) as [credv|]; [|discriminate].
+    destruct (qs_get_unique qs (b "X-Amz-Date")) as [datev|]; [|discriminate].
+    destruct (qs_get_unique qs (b "X-Amz-Expires")) as [expv|]; [|discriminate].
+    destruct (qs_get_unique qs (b "X-Amz-SignedHeaders")) as [shv|] eqn:E5; [|discriminate].
+    destruct (qs_get_unique qs (b "X-Amz-Signature")) as [sgv|] eqn:E6; [|discriminate].
+    destruct (parse_credential_full credv) as [cred|]; [|discriminate].
+    destruct (parse_amz_date datev) as [[iso date]|]; [|discriminate].
+    destruct (parse_expires expv) as [expires|]; [|discriminate].
+    destruct (forallb (fun c => c <? 128) shv) eqn:Ea1; cbn [negb orb] in A; [|discriminate].
+    destruct (is_sha256_checksum sgv) eqn:Ea2; cbn [negb] in A; [|discriminate].
+    destruct (negb (beq alg (b "AWS4-HMAC-SHA256"))); [discriminate|].
+    destruct (hs_get_unique (q_hs r) (b "x-amz-content-sha256")) as [v|] eqn:Ev.
+    + destruct (parse_content_sha v) eqn:Ep; [|discriminate].
+      assert (Hseed : seed = None).
+      { destruct (epoch_of iso); [|discriminate]. destruct (_ <? _)%Z; [discriminate|]. destruct (_ <? _)%Z; [discriminate|].
+        destruct (negb _); [discriminate|]. destruct auth as [f|]; [|discriminate]. destruct (f (c_ak cred)); [|discriminate].
+        destruct (beq _ sgv); [|discriminate]. injection A as _ _ _ <-. reflexivity. }
+      split; [exact Hseed|]. split; [|discriminate]. intros shv' sgv' [= <-] [= <-]. auto.
+    + assert (Hseed : seed = None).
+      { destruct (epoch_of iso); [|discriminate]. destruct (_ <? _)%Z; [discriminate|]. destruct (_ <? _)%Z; [discriminate|].
+        destruct (negb _); [discriminate|]. destruct auth as [f|]; [|discriminate]. destruct (f (c_ak cred)); [|discriminate].
+        destruct (beq _ sgv); [|discriminate]. injection A as _ _ _ <-. reflexivity. }
+      split; [exact Hseed|]. split; [|exact I]. intros shv' sgv' [= <-] [= <-]. auto.
+  - intros (Hs & -> & Hside & Hcs). unfold presigned_accept_spec in Hs. cbv zeta in Hs, Hside.
+    destruct Hs as (credv & datev & expv & shv & sgv & cred & iso & date & expires & t & f & secret & E1 & E2 & Ec & E3 & Ed & E4 & Ee & E5 & E6
+                    & Eak & Ereg & Esv & Ecd & Et & Hw & Eauth & Esec & Esg).
+    destruct (Hside shv sgv E5 E6) as [Ha1 Ha2].
+    unfold v4_presigned, lookup_secret. cbv zeta.
+    rewrite E1, E2, E3, E4, E5, E6, Ec, Ed, Ee, Ha1, Ha2. cbn [negb orb]. rewrite beq_refl. cbn [negb].
+    assert (Hc : match hs_get_unique (q_hs r) (b "x-amz-content-sha256") with
+                 | None => true | Some v => match parse_content_sha v with Some _ => true | None => false end end = true).
+    { destruct (hs_get_unique (q_hs r) (b "x-amz-content-sha256")) as [v|]; [|reflexivity]. destruct (parse_content_sha v); [reflexivity|congruence]. }
+    rewrite Hc, Et.
+    assert (W1 : (now_ns - t * 1000000000 <? -900 * 1000000000)%Z = false) by (apply Z.ltb_ge; lia). rewrite W1.
+    assert (W2 : (Z.of_N expires * 1000000000 <? now_ns - t * 1000000000)%Z = false) by (apply Z.ltb_ge; lia). rewrite W2.
+    rewrite Ecd, beq_refl. cbn [negb]. rewrite Eauth, Eak, Esec, Ereg, Esv, <- Esg, beq_refl. reflexivity.
+Qed.
+End PresignedExact.
